@@ -169,6 +169,9 @@ def include_catalogue():
     yield dict(kind="include", cls="include", main="main.asm", files={"main.asm": [" INCLUDE a.asm\n"], "a.asm": ["LA FOO 1\n"]})
     yield dict(kind="include", cls="include", main="main.asm", files={"main.asm": [" INCLUDE a.asm\n"], "a.asm": []})
     yield dict(kind="include", cls="include", main="main.asm", files={"main.asm": [" INCLUDE sub/a.asm\n"], "sub/a.asm": [" NOP \n"]})
+    yield dict(kind="include", cls="include", main="main.asm", files={"main.asm": [" INCLUDE ./a.asm\n"], "a.asm": [" INCLUDE ./a.asm\n"]})
+    yield dict(kind="include", cls="include", main="main.asm",
+               files={"main.asm": [" INCLUDE a.asm\n"], "a.asm": [" INCLUDE sub/../b.asm\n"], "b.asm": [" INCLUDE ./a.asm\n"], "sub/x.asm": []})
 
 
 _names = ["main.asm", "a.asm", "b.asm", "c.asm"]
